@@ -21,6 +21,7 @@ type concOpts struct {
 	hold       bool
 	emptyStore bool
 	maxTxns    int
+	stagger    bool
 }
 
 func genConc(o concOpts) func(r *rand.Rand, tier string) *Case {
@@ -56,15 +57,25 @@ func genConc(o concOpts) func(r *rand.Rand, tier string) *Case {
 				si := r.IntN(len(c.Stores))
 				k := kinds[r.IntN(len(kinds))]
 				op := Op{K: k, S: si, Key: 1 + r.IntN(keyspace)}
+				if k == "rmw" { // read-modify-write of one key: Get, then Update/UpdateCurrentValue
+					tx.Ops = append(tx.Ops, Op{K: "get", S: si, Key: op.Key})
+					k = pick(r, "update", "updcur")
+					op.K = k
+				}
 				switch k {
-				case "add", "addif", "upsert", "update":
+				case "add", "addif", "upsert", "update", "updcur":
 					op.Val = fmt.Sprintf("%s.%d", tx.Name, i)
 				}
 				tx.Ops = append(tx.Ops, op)
 			}
 			txs = append(txs, tx)
 		}
-		if o.hold && len(txs) >= 2 && r.IntN(2) == 0 {
+		if o.stagger && r.IntN(3) == 0 {
+			// staggered commits: bodies overlap (same snapshot), commits run one after another
+			for i := 1; i < len(txs); i++ {
+				txs[i].CommitAfter = txs[i-1].Name
+			}
+		} else if o.hold && len(txs) >= 2 && r.IntN(2) == 0 {
 			// targeted: pause a writer at a random step until another transaction is done
 			w := r.IntN(len(txs))
 			other := (w + 1 + r.IntN(len(txs)-1)) % len(txs)
@@ -159,7 +170,7 @@ func serialModel(c *Case, relax int) porcupine.Model {
 				probe := m.clone()
 				ok, val, items, count, _ := probe.ModelOp(sp.Name, sp.Unique, op)
 				switch op.K {
-				case "add", "addif", "upsert", "update", "updkey", "remove", "find":
+				case "add", "addif", "upsert", "update", "updkey", "remove", "find", "updcur", "rmcur":
 					if got.OK == ok {
 						m = probe
 						continue
@@ -168,7 +179,7 @@ func serialModel(c *Case, relax int) porcupine.Model {
 						return false, state
 					}
 					switch op.K {
-					case "update", "updkey", "remove", "find":
+					case "update", "updkey", "remove", "find", "updcur", "rmcur":
 						if got.OK {
 							return false, state // reported presence of something the model does not have
 						}
@@ -251,9 +262,18 @@ func oracleC02(c *Case, res *Result) []Violation {
 		}
 	}
 	tag := fmt.Sprintf("/txns%d", len(c.Phases[gi].Txns))
+	if len(c.Phases[gi].Txns) > 1 && c.Phases[gi].Txns[1].CommitAfter != "" {
+		tag += "/staggered"
+	}
 	for _, sp := range c.Stores {
 		if len(m[sp.Name]) == 0 {
 			tag += "/emptystore"
+			break
+		}
+	}
+	for _, ph := range c.Phases[:gi] {
+		if ph.Kind == "restart" {
+			tag += "/coldcache"
 			break
 		}
 	}
@@ -535,9 +555,9 @@ func oracleC06(c *Case, res *Result) []Violation {
 }
 
 func init() {
-	kindsRW := []string{"get", "get", "add", "addif", "upsert", "update", "remove", "scan"}
+	kindsRW := []string{"get", "rmw", "rmw", "add", "addif", "upsert", "update", "updcur", "remove", "rmcur", "scan"}
 	c02 := &caseCheck{id: "C02", oracle: oracleC02, nontrivial: nontrivialConc, perUnit: func(string) int { return 20 },
-		gen: genConc(concOpts{kinds: kindsRW, rollbackP: 6, readers: true, maxTxns: 4})}
+		gen: genConc(concOpts{kinds: kindsRW, rollbackP: 6, readers: true, maxTxns: 4, stagger: true})}
 	Register(c02.def("exploration",
 		"each evaluation = 2-4 concurrent transactions (read-modify-write, blind add/remove, read-only ForReading, some rolled back) over 4-10 overlapping keys of 1-2 seeded stores, interleaved by the seeded scheduler (PCT / sticky random walk) at every intercepted operation; the transactions that committed, with every value/found/count they observed, plus the final warm and cold dump are checked for serializability with porcupine (one operation per transaction, all concurrent; final read ordered last). Unknown (timeout) is counted inconclusive. distinct_nontrivial = distinct context-switch sequences among runs where transactions overlapped",
 		func(tier string) int {
